@@ -117,15 +117,21 @@ static RETRY_LOCK: std::sync::Mutex<()> = std::sync::Mutex::new(());
 /// Run the CLI on source bytes with the given stdin script (pipe closed after the script).
 /// A watchdog expiry is double-checked before it is believed: the run is repeated once, alone (the
 /// retries are serialised) and with five times the time limit, so that a heavily loaded machine does not
-/// turn into a verdict. At most 8 such retries per process: a tree that really hangs everywhere must
-/// not make the check take hours.
+/// turn into a verdict. The retries of one process may take 10 minutes in all: a tree that really hangs
+/// everywhere must not make the check take hours.
 pub fn run_cli_bytes(src: &[u8], stdin: &[u8], o: &CliOpts) -> CliOut {
     let out = run_cli_once(src, stdin, o);
-    if out.timed_out && !out.capped && TIMEOUT_RETRIES.fetch_add(1, Ordering::Relaxed) < 8 {
+    if out.timed_out && !out.capped {
+        // the budget is time, not a count: all retries of one process together may take 10 minutes
         let _g = RETRY_LOCK.lock().unwrap_or_else(|e| e.into_inner());
-        let mut o2 = o.clone();
-        o2.timeout_ms = o.timeout_ms * 5;
-        return run_cli_once(src, stdin, &o2);
+        if TIMEOUT_RETRIES.load(Ordering::Relaxed) < 600_000 {
+            let mut o2 = o.clone();
+            o2.timeout_ms = o.timeout_ms * 5;
+            let t0 = Instant::now();
+            let again = run_cli_once(src, stdin, &o2);
+            TIMEOUT_RETRIES.fetch_add(t0.elapsed().as_millis() as u64, Ordering::Relaxed);
+            return again;
+        }
     }
     out
 }
